@@ -135,6 +135,17 @@ def cmdLeadHyp (s : Array Nat) : String :=
         | [] => "-"
       s!"{if hyp then 1 else 0}:{pred}")
 
+-- >>> skel command ----------------------------------------------------------------------------
+/-- `skel <fuel> <hex text>` → `ok <sexp> …`: the parsed statements without their whitespace leaves, or `err <PyErr>` -/
+def cmdWsSkel (ws : List String) : String :=
+  match ws with
+  | fuel :: rest =>
+    match parseTrees fuel.toNat! (parseText rest) with
+    | .error e => "err " ++ e.name
+    | .ok ns => "ok" ++ sexpL (ns.map Sql.Node.skel)
+  | [] => "bad-request"
+-- <<< skel command ----------------------------------------------------------------------------
+
 -- >>> delimsafe command -----------------------------------------------------------------------
 /-- `delimsafe <hex text>`: for every statement of lexer ∘ splitter `<DelimSafe>:<delimShape of the model's grouped
 tree, or e on error>` (0/1 each) -/
@@ -210,6 +221,7 @@ def handle (line : String) : String :=
   | "skeltexts" :: _ => cmdSkelTexts
   | "leadhyp" :: rest => cmdLeadHyp (parseText rest)
   | "delimsafe" :: rest => cmdDelimSafe (parseText rest)
+  | "skel" :: rest => cmdWsSkel rest
   | "acc" :: rest => Sql.Driver.cmdAcc rest   -- accessors (SqlModel/AccDriver.lean), stream S-ACC
   -- >>> formatting-side commands (SqlModel/FilterDriver.lean)
   | "opt" :: rest => Sql.Driver.cmdOpt rest
